@@ -1,11 +1,12 @@
 #!/bin/bash
-# usage: mkmut.sh <name> <file> <sed-expr>   -> /verif/mutants/<name>.diff  (scratch clone in /tmp/mk/r)
+# usage: mkmut.sh <name> <file> <sed-expr>   -> /verif/mutants/<name>.diff   (private scratch clone, removed afterwards)
 set -e
-if [ ! -d /tmp/mk/r/.git ]; then mkdir -p /tmp/mk; rm -rf /tmp/mk/r; git clone -q /repo /tmp/mk/r; fi
-cd /tmp/mk/r; git fetch -q origin; git reset -q --hard origin/HEAD 2>/dev/null || git reset -q --hard origin/master
+T=$(mktemp -d /tmp/mkmut-XXXXXX)
+trap 'rm -rf "$T"' EXIT
+git clone -q /repo "$T/r"
+cd "$T/r"
 sed -i "$3" "$2"
 git diff -- "$2" > /verif/mutants/$1.diff
-git checkout -q -- "$2"
 n=$(grep -c '^[-+][^-+]' /verif/mutants/$1.diff || true)
 echo "$1: $n changed lines"
 [ "$n" -gt 0 ]
